@@ -15,7 +15,18 @@ use std::io::{BufRead, Write};
 #[global_allocator]
 static GLOBAL: quiet::Counting = quiet::Counting;
 
+/// a logger that is enabled at every level and does nothing: the arguments of the library's log macros are evaluated (a panic
+/// hidden in one of them shows), nothing is formatted, nothing is allocated
+struct NullLog;
+impl log::Log for NullLog {
+    fn enabled(&self, _: &log::Metadata) -> bool { true }
+    fn log(&self, _: &log::Record) {}
+    fn flush(&self) {}
+}
+static NULL_LOG: NullLog = NullLog;
+
 fn main() {
+    let _ = log::set_logger(&NULL_LOG); log::set_max_level(log::LevelFilter::Trace);
     let a: Vec<String> = std::env::args().collect();
     if std::env::var("VERIF_HARNESS_VERBOSE").is_err() { std::panic::set_hook(Box::new(|_| {})); }
     match a.get(1).map(|s| s.as_str()) {
